@@ -511,7 +511,16 @@ def main_check(P, argv):
     cov["theorems"] = [t for t, _ in theorems]
     cov["axioms_reported_by_Print_Assumptions"] = axioms
     cov["checker_cmd"] = "cd /verif/coq && make Properties_%s.vo && coqc -Q . CppUVerif Properties_%s.v  (Coq 8.16.1 kernel; vm_compute used; no native_compute)" % (prop, prop)
-    cov["trusted_base"] = ["Coq 8.16.1 kernel (coqc, incl. vm_compute)", "tools/extract_src.py (translator-lite for constants/tables)",
+    gens = set(os.path.basename(f) for f in coq_closure([os.path.join(COQ, "Properties_%s.v" % prop)]) if os.path.basename(f).startswith("Gen_"))
+    trans = []
+    if any(g.startswith("Gen_Leaf") for g in gens):
+        trans.append("tools/cxx2coq.py (clang AST -> Gallina, loop-free leaf functions; lib/CSem.v)")
+    if any(g.startswith("Gen_Loop") for g in gens):
+        trans.append("tools/cxx2gal.py (clang AST -> fuelled Gallina over the byte memory of lib/CMem.v)")
+    if any(g.startswith("Gen_Heap") for g in gens):
+        trans.append("tools/cxx2heap.py (clang AST -> fuelled Gallina over the object heap of lib/CHeap.v; record layouts re-read from the class definitions)")
+    cov["generated_from_source"] = sorted(gens)
+    cov["trusted_base"] = trans + ["Coq 8.16.1 kernel (coqc, incl. vm_compute)", "tools/extract_src.py (translator-lite for constants/tables)",
                            "extraction (ExtrOcamlBasic only, no Extract Constant) + OCaml 4.13.1", "ocaml/glue.ml + ocaml/%s_driver.ml" % low,
                            "harness/%s.* linked against /repo sources built now with g++ 12.2 (+ASan/UBSan)" % prop,
                            "checks/%s.py generators and canonicalisers" % prop] + ["stdlib axiom: " + x for x in axioms]
